@@ -1,11 +1,12 @@
 CONSTANTS ControlsExisting = TRUE
   RandomFresh = TRUE
   OpenReturns = TRUE
+  OwnsOnlyCreated = TRUE
   CtlSets = {{"cpu", "memory"}, {"u"}}
   Names = {"x", "y"}
   RNames = {"r"}
   PidSet = {"p1", "p2"}
-  MaxOps = 6
+  MaxOps = 5
   MaxDepth = 2
   MaxHandles = 5
   WithSet = FALSE
